@@ -63,7 +63,12 @@ func connClosedOnError(p *Prog, r *Report, rule string, cl *types.Named, leakMsg
 		fatalf("rule %s: the method of %s that opens a backend connection was not found", rule, cl.Obj().Name())
 	}
 	s := newSim(p)
-	s.Inline = func(f *ssa.Function) bool { return f.Parent() == fn }
+	helpers := map[*ssa.Function]bool{}
+	for _, h := range privateHelpersOf(p, fn) {
+		helpers[h] = h != fn
+	}
+	// (closures of the function, and the private helpers its phases were moved into)
+	s.Inline = func(f *ssa.Function) bool { return f.Parent() == fn || helpers[f] }
 	errPair := func(st *State, call ssa.CallInstruction, okv AV, n int) []*State {
 		okSt, bad := st.clone(), st.clone()
 		switch n {
@@ -94,7 +99,7 @@ func connClosedOnError(p *Prog, r *Report, rule string, cl *types.Named, leakMsg
 			SetCallResult(st, call, top)
 			return []*State{st}
 		}
-		if callee != nil && callee.Signature.Results().Len() >= 1 && p.InRepo(callee) && callee.Parent() != fn {
+		if callee != nil && callee.Signature.Results().Len() >= 1 && p.InRepo(callee) && callee.Parent() != fn && !helpers[callee] {
 			res := callee.Signature.Results()
 			if types.Identical(res.At(res.Len()-1).Type(), errType) {
 				return errPair(st, call, AV{K: avNonNil}, res.Len())
@@ -126,7 +131,7 @@ func connClosedOnError(p *Prog, r *Report, rule string, cl *types.Named, leakMsg
 			}
 		}
 	}
-	if nerr < 2 {
+	if nerr < 1 {
 		bad = append(bad, fmt.Sprintf("only %d error paths after the connection was opened were found", nerr))
 	}
 	r.check(len(bad) == 0, rule, cl.Obj().Name()+"."+fn.Name(), p.Pos(fn.Pos()), fmt.Sprintf("%d error paths after open, each closes the connection", nerr), strings.Join(dedupe(bad), " || "))
